@@ -1,0 +1,36 @@
+//===- VerifHooks.h ---------------------------------------------*- C++ -*-===//
+//
+// Notification points for external runtime monitors. Everything in this file
+// is compiled only when LLBUILD_VERIF is defined; a normal build never sees it.
+//
+//===----------------------------------------------------------------------===//
+
+#ifndef LLBUILD_BASIC_VERIFHOOKS_H
+#define LLBUILD_BASIC_VERIFHOOKS_H
+
+#ifdef LLBUILD_VERIF
+
+namespace llbuild {
+namespace basic {
+namespace verif {
+
+/// Points in the execution queues at which the hook is notified, with no
+/// queue lock held. It only notifies: the queue reads nothing back from it.
+enum class QueuePoint {
+  /// The thread started by cancelAllJobs() that escalates to SIGKILL has begun
+  /// to run and is about to take the queue-complete mutex.
+  EscalationThreadStart = 0
+};
+
+typedef void (*QueueHookFn)(void* ctx, QueuePoint point);
+
+/// Install (or, with nullptr, remove) the process-wide hook.
+void setQueueHook(QueueHookFn fn, void* ctx);
+
+}
+}
+}
+
+#endif
+
+#endif
